@@ -48,9 +48,14 @@ def lm(eqn: nAE,
     p = eqn.p
 
     # optimize.root func cannot handle callable jac that returns scipy.sparse.csc_array
+    def dense_jac(x):
+        J = eqn.J(x, p)
+        # made_numerical(..., sparse=False), its default, returns an ndarray already
+        return J.toarray() if hasattr(J, 'toarray') else np.asarray(J)
+
     sol = optimize.root(lambda x: eqn.F(x, p), 
                         y, 
-                        jac=lambda x: eqn.J(x, p).toarray(), 
+                        jac=dense_jac, 
                         method='lm', 
                         # scipy maps `tol` to minpack's xtol, a *relative step* test (delta <= xtol*|x|),
                         # not a residual test: let minpack iterate to its floor and test |F| < tol below
